@@ -97,7 +97,8 @@ def gen_env(rng, t):
     return env
 
 
-def gen_history(rng, maxlen=40, risky=0.03, files=False, clone_p=0.03, into_p=0.0, coll_p=0.0, max_objs=3):
+def gen_history(rng, maxlen=40, risky=0.03, files=False, clone_p=0.03, into_p=0.0, coll_p=0.0, max_objs=3,
+                classes=None, reload_p=0.17, levels=False, focus=0.0):
     """random history guided by a reference simulation (independent of the implementation)"""
     ops = [{"o": 0, "op": "NEW", "defaults": tree(rng), "overrides": tree(rng, dens=0.3)}]
     if files:
@@ -107,11 +108,35 @@ def gen_history(rng, maxlen=40, risky=0.03, files=False, clone_p=0.03, into_p=0.
     refs = [cfglib.new_ref(ops[0])]
     n = rng.randint(3, maxlen)
     while len(ops) < n:
-        o = rng.randrange(len(refs))
+        o = 0 if rng.random() < focus else rng.randrange(len(refs))
         ref = refs[o]
         r = rng.random()
         op = {"o": o}
-        if r < 0.17:  # reloads
+        extra = []
+        if r < reload_p and levels and rng.random() < 0.45:
+            w = rng.random()
+            if w < 0.6:
+                # unmerged level loads, made visible by whatever merges next
+                for _ in range(rng.randint(1, 2)):
+                    kind = rng.choice(["defaults", "defaults", "overrides", "collection"])
+                    extra.append({"o": o, "op": "LOADU", "slot": kind,
+                                  "data": tree(rng, dens=0.3 if kind == "overrides" else 0.55)})
+                t = rng.random()
+                if t < 0.4:
+                    extra.append({"o": o, "op": "MERGE"})
+                elif t < 0.6:
+                    extra.append({"o": o, "op": "LOAD", "slot": "collection", "data": tree(rng)})
+                elif t < 0.75:
+                    extra.append({"o": o, "op": "ENV", "env": {}})
+                else:
+                    lk = rng.choice([k for k in KEYS if SHAPE.get((k,)) == "leaf"])
+                    extra.append({"o": o, "op": "SI", "path": [], "k": lk, "v": leaf(rng, (lk,))})
+                op = extra.pop(0)
+            elif w < 0.85:
+                op.update(op="RUNTIME", data=tree(rng, dens=0.4) if rng.random() < 0.8 else None)
+            else:
+                op.update(op="PROJECT", data=tree(rng, dens=0.4))
+        elif r < reload_p:  # reloads
             kind = rng.choice(["defaults", "collection", "collection", "overrides", "ENV", "ENV"])
             if kind == "ENV":
                 op.update(op="ENV", env=gen_env(rng, ref.tree))
@@ -119,10 +144,14 @@ def gen_history(rng, maxlen=40, risky=0.03, files=False, clone_p=0.03, into_p=0.
                 op.update(op="LOAD", slot=kind, data=tree(rng, dens=0.3 if kind == "overrides" else 0.55))
                 if kind == "collection" and rng.random() < coll_p:
                     op["via_coll"] = True
-        elif r < 0.17 + clone_p and len(refs) < max_objs:
+        elif r < reload_p + clone_p and len(refs) < max_objs:
             op.update(op="CLONE")
             if rng.random() < into_p:
-                op["into"] = tree(rng, dens=0.4)
+                if classes:
+                    op["cls"] = rng.randrange(len(classes))
+                    op["into"] = copy.deepcopy(classes[op["cls"]])
+                else:
+                    op["into"] = tree(rng, dens=0.4)
         else:
             secs = sections(ref.tree)
             path = rng.choice(secs) if rng.random() < 0.9 else tuple(rng.choice(KEYS) for _ in range(rng.randint(1, 2)))
@@ -193,17 +222,21 @@ def gen_history(rng, maxlen=40, risky=0.03, files=False, clone_p=0.03, into_p=0.
                 op["op"] = rng.choice(cfglib.READS)
                 if op["op"] in ("LEN", "KEYS", "ITER", "ITEMS"):
                     del op["k"]
-        ops.append(op)
-        try:
-            if op["op"] == "CLONE":
-                k = ref.clone()
-                if op.get("into") is not None:
-                    k.reload("defaults", cfglib.deep_merge(op["into"], k.levels["defaults"]))
-                refs.append(k)
-            else:
-                ref.apply(op)
-        except cfglib.RefSkip:
-            ops.pop()
+        for op in [op] + extra:
+            ops.append(op)
+            try:
+                if op["op"] == "CLONE":
+                    k = ref.clone()
+                    if op.get("into") is not None:
+                        k.reload("defaults", cfglib.deep_merge(op["into"], k.levels["defaults"]))
+                    refs.append(k)
+                else:
+                    ref.apply(op)
+            except cfglib.RefSkip:
+                ops.pop()
+                if extra:
+                    ops.append({"o": o, "op": "MERGE"})  # never leave an unmerged load dangling
+                break
     return ops
 
 
